@@ -6,6 +6,7 @@ import os, re, subprocess, tempfile, shutil
 ROOT = os.path.dirname(os.path.dirname(os.path.abspath(__file__)))
 # (property, unit regex, clause regex) -> scenarios to try, in order
 TABLE = [
+    ("C05", r"solout", r"teval\.", ["tiny_time_scale", "teval_terminal"]),
     ("C03", r"dispatch_A", r"zero_length|skipped", ["tiny_time_scale"]),
     ("C06", r"cont_R", r".*", ["tiny_time_scale"]),
     ("C03", r"dispatch_R", r"first_output|handler", ["first_step_sign_and_overshoot"]),
